@@ -302,7 +302,15 @@ func oracleC20(s *Sim, y *Sys) {
 		pol := h.Spec.Policy
 		arrBySeq := map[uint32]*chunkArrival{}
 		pointSeq := map[string]uint32{}
+		// a chunk retransmitted after a resume arrives twice: the first arrival is the cut
+		var arrivals []*chunkArrival
 		for _, a := range h.B.Arrivals {
+			if arrBySeq[a.Seq] == nil {
+				arrBySeq[a.Seq] = a
+				arrivals = append(arrivals, a)
+			}
+		}
+		for _, a := range arrivals {
 			arrBySeq[a.Seq] = a
 			for _, p := range a.Points {
 				pointSeq[ptKey(p)] = a.Seq
@@ -388,7 +396,7 @@ func oracleC20(s *Sim, y *Sys) {
 		}
 		switch pol {
 		case "none":
-			for _, a := range h.B.Arrivals {
+			for _, a := range arrivals {
 				if !flushOrClose(a) {
 					s.Violate("C20.none-policy-sent", pol, "%s: chunk seq %d was transmitted before any Flush or Close was called", u, a.Seq)
 				}
@@ -401,7 +409,7 @@ func oracleC20(s *Sim, y *Sys) {
 					owner[ptKey(p)] = w.Op.ID
 				}
 			}
-			for _, a := range h.B.Arrivals {
+			for _, a := range arrivals {
 				ids := map[int]bool{}
 				for _, p := range a.Points {
 					ids[owner[ptKey(p)]] = true
@@ -413,7 +421,7 @@ func oracleC20(s *Sim, y *Sys) {
 		case "size":
 			// single-writer exact model is checked in oracleC20Size; here: every chunk not caused by
 			// Flush/Close exceeds the threshold
-			for _, a := range h.B.Arrivals {
+			for _, a := range arrivals {
 				if flushOrClose(a) {
 					continue
 				}
@@ -452,7 +460,7 @@ func oracleC20(s *Sim, y *Sys) {
 			}
 			// accepted data is on the link no later than one interval (+1ms) after the write returned
 			arrT := map[string]time.Duration{}
-			for _, a := range h.B.Arrivals {
+			for _, a := range arrivals {
 				for _, p := range a.Points {
 					arrT[ptKey(p)] = a.SentAt
 				}
@@ -517,7 +525,14 @@ func oracleC20SizeModel(s *Sim, h *upH) {
 			cur, sum = nil, 0
 		}
 	}
-	arr := append([]*chunkArrival(nil), h.B.Arrivals...)
+	var arr []*chunkArrival
+	seenSeq := map[uint32]bool{}
+	for _, a := range h.B.Arrivals {
+		if !seenSeq[a.Seq] {
+			seenSeq[a.Seq] = true
+			arr = append(arr, a)
+		}
+	}
 	sort.SliceStable(arr, func(i, j int) bool { return arr[i].Seq < arr[j].Seq })
 	for i, want := range model {
 		if i >= len(arr) {
